@@ -46,7 +46,7 @@ REQUIRED = {
     "history/vertex_normals:uniform:custom_fnormals": 1500, "history/vertex_normals:area:custom_fnormals": 1500,
     "history/vertex_normals:angle:custom_fnormals": 1500,
     "ref/face_area:nonconvex_face": 80, "ref/face_normals:nonconvex_face": 150, "ref/total_area:nonconvex_faces": 5,
-    "coverage/ref:face_area_on_nonconvex_faces_star_shaped_from_vertex_mean": 60,
+    "coverage/ref:face_area_on_nonconvex_faces_star_shaped_from_vertex_mean": 16,
     "reuse": 15000,
     "needle/corner_angles": 2000, "needle/cotangent": 2000, "needle/cotangent_from_cached_angles": 500, "needle/triangle_angle_sum": 150,
     "needle/defect_sum_2pi_chi": 60, "identity/interp_mode_spelling": 3000,
